@@ -15,7 +15,7 @@ from ..model import leaftypes as LT
 from ..model import trees as TM
 
 LEVEL = "exploration"
-TECHNIQUE = "runtime monitoring: reference model in which '?name' at leaf i of structure T is the fresh axis (T,i,name), compared with decorated-call and manual-check verdicts on generated tree tuples; misuse forms must raise AnnotationError; structured sibling PyTrees in the leaf type; arrays whose shape property makes nested jaxtyped calls; structure names spelled with whitespace"
+TECHNIQUE = "runtime monitoring: reference model in which '?name' at leaf i of structure T is the fresh axis (T,i,name), compared with decorated-call and manual-check verdicts on generated tree tuples; misuse forms must raise AnnotationError; structured sibling PyTrees in the leaf type; arrays whose shape property makes nested jaxtyped calls; structure names spelled with whitespace; short-lived trees in one scope; symbolic axes naming the plain axis next to a per-leaf '?' axis of the same name"
 LEVEL_TEXT = (
     "Held on every generated pair/triple of trees with independently drawn per-leaf sizes, leaf types with '?n', '*?n', "
     "'?n m' alone and inside Union/tuple/structure-less PyTree, both typecheckers and manual checks. Sampling, not proof."
